@@ -430,3 +430,78 @@ Example c19_source_binom_nonvacuous :
                 (Some ([3%nat], [10; 0; 1]%Z)) = true /\
   SrcRun.agrees (SrcRun.run_binom SrcRun.junk_check (SrcRun.ztens [1%nat] [5]%Z) (SrcRun.ztens [1%nat] [-1]%Z)) None = true.
 Proof. vm_compute. repeat split. Qed.
+
+(* ---- IndependentMetropolisHastingsEstimator.__call__ (_mc.py): the accept / reject bookkeeping, as MARKED BLOCKS ----------- *)
+(* (`with torch.no_grad()` and `while accept.dim() < cur_sample.dim()` are outside MiniPy: the blocks around them - mh_accept =
+   `cur_sample = self.proposal.sample([1])` .. `cur_ratio = accept * cur_ratio + (~accept) * last_ratio`, mh_update =
+   `cur_sample = torch.where(accept, cur_sample, last_sample)` .. `last_sample, last_ratio = cur_sample, cur_ratio` - are
+   translated (PV.Gen.C19McSrc) and interpreted with SrcRunMc.ext19mc: a sample = one outcome index per batch element (no
+   event dimensions, so the `while` does not execute), density / proposal through their ratio table w, logarithms exact
+   (OpsC19 log-domain values: log of a positive rational, -inf, nan), is_log = False.) *)
+From PV Require C19McSrc C19.SrcRunMc C19.TieMc C19.TieMcStep.
+
+(* ONE iteration = the model's step, for EVERY batch size B, ratio / function tables, proposal, uniforms >= 0 and burn-in:
+   from a state whose last_sample holds the outcomes [lasts] and whose last_ratio represents the model's ratio states
+   [lastws] (nan for None, the log of a positive rational for Some), executing mh_accept and then mh_update leaves last_sample =
+   Model's next outcomes (imh_chain's [nxt]) and last_ratio representing Model's next ratio states ([nw]: including the nan
+   that rejecting a zero-density proposal leaves behind), one more proposal drawn *)
+Theorem c19_source_mh_step_is_model : forall (w f : nat -> nat -> Q) props us Nz burn Bs nk B N,
+  length us = N -> Forall (fun r => length r = B) us -> Forall (Forall (fun u => (0 <= u)%Q)) us ->
+  forall lasts lastws LR, length lasts = B -> length LR = B ->
+  (forall j, (j < B)%nat -> TieMc.rel_lv (nth j lastws None) (nth j LR OpsC19.LNaN)) ->
+  forall evs n, length (nth (length evs) props []) = B -> (n < N)%nat ->
+  forall vv cs cr ac fb t1, TieMcStep.v_ok burn B n vv ->
+  exists st1 LR' v' cs' cr' ac' fb' t1' evs',
+    Interp.exec (SrcRunMc.ext19mc w f props us) C19McSrc.mh_accept
+      (TieMc.st_mh (SrcRunMc.self_val Nz burn Bs) nk B N (map OpsC19.lv_log (concat us)) (TieMc.inj_idx lasts) LR vv
+         (Syntax.VInt (Z.of_nat n)) cs cr ac fb t1 evs) = Interp.Ok Interp.CNormal st1 /\
+    Interp.exec (SrcRunMc.ext19mc w f props us) C19McSrc.mh_update st1 =
+    Interp.Ok Interp.CNormal
+      (TieMc.st_mh (SrcRunMc.self_val Nz burn Bs) nk B N (map OpsC19.lv_log (concat us))
+         (TieMc.inj_idx (map (TieMcStep.step_nxt w props us lasts lastws evs n) (seq 0 B))) LR' v' (Syntax.VInt (Z.of_nat n))
+         cs' cr' ac' fb' t1' evs') /\
+    length LR' = B /\
+    (forall j, (j < B)%nat -> TieMc.rel_lv (TieMcStep.step_nw w props us lastws evs n j) (nth j LR' OpsC19.LNaN)) /\
+    length evs' = S (length evs).
+Proof. exact TieMcStep.mh_step_tie. Qed.
+Print Assumptions c19_source_mh_step_is_model.
+
+(* [step_nxt] / [step_nw] ARE the body of Model.imh_chain *)
+Theorem c19_source_mh_step_defs : forall w last lastw c ps u us,
+  imh_chain w last lastw (c :: ps) (u :: us) =
+  TieMc.mnxt w last lastw c u :: imh_chain w (TieMc.mnxt w last lastw c u) (TieMc.mnw w lastw c u) ps us.
+Proof. exact TieMc.imh_chain_step. Qed.
+Print Assumptions c19_source_mh_step_defs.
+
+(* COMPOSED with c19_mh_accepts_all_when_equal - purely about the interpreted blocks: when proposal and target coincide (the
+   ratio of every batch element is a positive constant), the stored ratio is that of the last sample and the uniforms lie in
+   [0, 1), one iteration ACCEPTS THE PROPOSAL OF EVERY BATCH ELEMENT: last_sample becomes this step's proposal, and the stored
+   ratio is again that of the last sample (so the hypothesis holds for the next iteration) *)
+Theorem c19_source_mh_step_accepts_all_when_equal : forall (w f : nat -> nat -> Q) props us Nz burn Bs nk B N,
+  length us = N -> Forall (fun r => length r = B) us -> Forall (Forall (fun u => (0 <= u)%Q /\ (u < 1)%Q)) us ->
+  (forall j, (j < B)%nat -> exists c, (0 < c)%Q /\ forall i, (w j i == c)%Q) ->
+  forall lasts LR, length lasts = B -> length LR = B ->
+  (forall j, (j < B)%nat -> TieMc.rel_lv (Some (w j (nth j lasts 0%nat))) (nth j LR OpsC19.LNaN)) ->
+  forall evs n, length (nth (length evs) props []) = B -> (n < N)%nat ->
+  forall vv cs cr ac fb t1, TieMcStep.v_ok burn B n vv ->
+  exists st1 LR' v' cs' cr' ac' fb' t1' evs',
+    Interp.exec (SrcRunMc.ext19mc w f props us) C19McSrc.mh_accept
+      (TieMc.st_mh (SrcRunMc.self_val Nz burn Bs) nk B N (map OpsC19.lv_log (concat us)) (TieMc.inj_idx lasts) LR vv
+         (Syntax.VInt (Z.of_nat n)) cs cr ac fb t1 evs) = Interp.Ok Interp.CNormal st1 /\
+    Interp.exec (SrcRunMc.ext19mc w f props us) C19McSrc.mh_update st1 =
+    Interp.Ok Interp.CNormal
+      (TieMc.st_mh (SrcRunMc.self_val Nz burn Bs) nk B N (map OpsC19.lv_log (concat us))
+         (TieMc.inj_idx (nth (length evs) props [])) LR' v' (Syntax.VInt (Z.of_nat n)) cs' cr' ac' fb' t1' evs') /\
+    (forall j, (j < B)%nat -> TieMc.rel_lv (Some (w j (nth j (nth (length evs) props []) 0%nat))) (nth j LR' OpsC19.LNaN)).
+Proof. exact TieMcStep.mh_source_step_accepts_all. Qed.
+Print Assumptions c19_source_mh_step_accepts_all_when_equal.
+
+(* the four blocks glued as the `for` glues them (SrcRunMc.mh_run), on a chain with a rejected zero-density proposal *)
+Example c19_source_mh_nonvacuous :
+  SrcRunMc.src_imh_check (1 # 1000000) [[1; 2; 0]; [1; 1; 1]]%Q [[3; 5; 7]; [2; 4; 6]]%Q (Some [0; 1]%nat)
+    [[1; 2]; [2; 0]; [0; 1]]%nat 1 [[1 # 4; 3 # 4]; [1 # 2; 0]; [3 # 4; 1 # 8]]%Q 3 1
+    (Some [5; 3]%Q) = true /\
+  imh_check (1 # 1000000) [[1; 2; 0]; [1; 1; 1]]%Q [[3; 5; 7]; [2; 4; 6]]%Q (Some [0; 1]%nat)
+    [[1; 2]; [2; 0]; [0; 1]]%nat 1 [[1 # 4; 3 # 4]; [1 # 2; 0]; [3 # 4; 1 # 8]]%Q 3 1
+    (Some [5; 3]%Q) = true.
+Proof. vm_compute. split; reflexivity. Qed.
